@@ -77,6 +77,18 @@ static void sm_limit(vh::Rng& r) {
    } catch (const Error&) { ++out->inconclusive; out->count("sm-limit-point-rejected"); }
 }
 
+// The bosonic two-loop part has known singular configurations (findings of C11: Kaellen(mS^2, mH+^2, MW^2) = 0, mH+ = MW, mh = 2 MW - the light Higgs mass
+// of a decoupling family is the same for every M, so a family that lands on mh = 2 MW stays there).  A spike there is C11's finding, not a failure to decouple:
+// such families are not judged for 2LB (neighbourhoods of 3e-3 MW; the count of skipped families is reported).
+static bool near_known_bosonic_singularity(const THDM& m) {
+   const double MW = m.get_sm().get_mw(), eps = 3e-3, mHp = m.get_MHm(1);
+   const double S[3] = {m.get_Mhh(0), m.get_Mhh(1), m.get_MAh(1)};
+   for (int i = 0; i < 3; ++i) {
+      if (std::fabs(std::fabs(S[i] - mHp) - MW) < eps * MW || std::fabs(S[i] + mHp - MW) < eps * MW) return true;   // on the scale of MW: heavy states are split by O(MW)
+   }
+   return std::fabs(mHp - MW) < eps * MW || std::fabs(S[0] - 2 * MW) < eps * 2 * MW;
+}
+
 // oracle 2: gauge basis, fixed quartic couplings, heavy scale M raised: K(M) = |a| M^2/(1 + ln^2(M/MZ)) stays bounded
 static void decoupling(vh::Rng& r, double T1, double TF, double TB) {
    thdm::Gauge_basis g; g.yukawa_type = static_cast<thdm::Yukawa_type>(1 + r.range(6));
@@ -95,7 +107,7 @@ static void decoupling(vh::Rng& r, double T1, double TF, double TB) {
    J c = gen::json(g);
    const std::string ty = "type" + std::to_string(static_cast<int>(g.yukawa_type));
    const int NP = 5;
-   double K[3][2][NP]; double aM2[3][2][NP];
+   double K[3][2][NP]; double aM2[3][2][NP]; bool touches_singular = false;
    // the property's sqrt(10) grid, for the literal-ratio statistic
    double grid[3][4];
    try {
@@ -105,6 +117,7 @@ static void decoupling(vh::Rng& r, double T1, double TF, double TB) {
          THDM m0(g, SM(), cfg); SM sm; sm.set_mh(m0.get_Mhh(0));   // light-Higgs sector = the SM's
          THDM m(g, sm, cfg);
          const double a[3] = {calculate_amu_1loop(m), calculate_amu_2loop_fermionic(m), calculate_amu_2loop_bosonic(m)};
+         touches_singular = touches_singular || near_known_bosonic_singularity(m);
          const double L = std::log(M / MZ);
          for (int q = 0; q < 3; ++q) { aM2[q][band][j] = a[q] * M * M; K[q][band][j] = std::fabs(a[q]) * M * M / (1 + L * L); }
       }
@@ -122,6 +135,7 @@ static void decoupling(vh::Rng& r, double T1, double TF, double TB) {
       J w = c; w.arr("aM2_low_band", aM2[q][0], aM2[q][0] + NP).arr("aM2_high_band", aM2[q][1], aM2[q][1] + NP);
       if (!fin) { out->fail(std::string("C10:decoupling:") + nm[q] + ":nonfinite", "non-finite contribution along the decoupling family", w); continue; }
       if (lo == 0) { out->count(std::string("decoupling:") + nm[q] + ":vanishes-in-low-band"); continue; }
+      if (q == 2 && touches_singular) { out->count("decoupling:2LB: family touches a known singular configuration of the bosonic part (C11 findings): not judged"); continue; }
       judge(std::string("decoupling:") + nm[q] + ":band-maxima-ratio", ty, hi / lo, lim[q], w, std::string(nm[q]) + ": max_high K / max_low K with K = |a| M^2/(1+ln^2(M/MZ))");
       for (int j = 0; j < 3; ++j) {
          const double ratio = std::fabs(grid[q][j + 1]) / std::fabs(grid[q][j]);
